@@ -306,6 +306,33 @@ func runScript(c *Case, res *result) (err error) {
 		return err
 	}
 
+	// ---- schedule "slowdestroy": a valid fid that no request executing at the
+	// cut names is shown to the implementation once more, with the order to
+	// dwell in its FidDestroy; Conn.close then sits inside the fid clean-up
+	// until the first parked request has answered
+	destroyKey := ""
+	if vs != nil && c.Sched == "slowdestroy" {
+		named := map[uint32]bool{}
+		for i := range c.Flights {
+			m := c.Flights[i].resolve(1000+i, vs.M.Fids)
+			named[m.Fid], named[m.Newfid], named[m.Afid] = true, true, true
+		}
+		for _, u := range FUniverse {
+			if f := vs.M.Fids[u]; f != nil && f.Kind != model.KAuth && !named[u] {
+				m := &ref9p.Msg{Type: ref9p.Tstat, Fid: u}
+				if _, err := vs.Step(m, script.Behav{HoldDestroy: true}); err != nil {
+					var h *srvh.Hang
+					if errors.As(err, &h) {
+						return &hangError{fmt.Sprintf("before the cut, Tstat fid %d: %v", u, err)}
+					}
+					return fmt.Errorf("before the cut, Tstat fid %d: %w", u, err)
+				}
+				destroyKey = script.Key(ref9p.Canon(m, vs.C.Dotu))
+				break
+			}
+		}
+	}
+
 	// ---- requests that are still executing at the cut
 	var live []*liveFlight
 	creating, using, killing, keys := map[uint32]bool{}, map[uint32]bool{}, map[uint32]bool{}, map[string]bool{}
@@ -461,7 +488,7 @@ func runScript(c *Case, res *result) (err error) {
 
 	// ---- schedule: where the close is relative to the first released request
 	sched := c.Sched
-	if len(parked) == 0 {
+	if len(parked) == 0 || (sched == "slowdestroy" && destroyKey == "") {
 		sched = "closefirst"
 	}
 	switch sched {
@@ -488,9 +515,34 @@ func runScript(c *Case, res *result) (err error) {
 		S.Release(lf.key)
 		k.wait(lf.who, "respond.posted", 1, quiesce)
 	}
-	if sched != "closefirst" {
+	if sched == "slowdestroy" {
+		// (schedule only) until Conn.close is inside the dwelling FidDestroy
+		inside := waitFor(holdTimeout, func() bool {
+			for _, e := range S.Log() {
+				if e.Kind == "fiddestroy-enter" && e.Conn == vid {
+					return true
+				}
+			}
+			return false
+		})
+		if !inside {
+			res.labels = append(res.labels, "schedule slowdestroy not reached")
+		}
+	}
+	switch sched {
+	case "closefirst":
+	case "slowdestroy":
+		// every parked request answers while close sits in the clean-up
+		for _, lf := range parked {
+			release(lf)
+		}
+		parked = nil
+	default:
 		release(parked[0])
 		parked = parked[1:]
+	}
+	if destroyKey != "" {
+		S.Release(destroyKey)
 	}
 	if closeSettled(k, vid, closeWait) {
 		res.labels = append(res.labels, "close finished before the (remaining) requests were released")
